@@ -708,7 +708,6 @@ func (v *vocab) seq(rule string, cut bool) *seqRule {
 		}}
 }
 
-
 // queueNextKey: the queue manager's selector method (returns the queue to dequeue from and an error).
 func (c *Ctx) queueNextKey() string {
 	if v, ok := c.cache["queueNextKey"]; ok {
